@@ -54,6 +54,7 @@ const (
 	InvalidNoPatches     = "no-patches"
 	InvalidBadCommit     = "bad-update-commitment"
 	InvalidUnknownAction = "unknown-action"
+	InvalidSecondPatch   = "second-patch-invalid" // a valid patch followed by an invalid one of the same action
 )
 
 // Opt tunes a built operation.
@@ -106,6 +107,11 @@ func buildDelta(class, invalidKind, nextUpdate string, markers map[string]interf
 			d = asm.Delta("AAAA", markerPatches(markers, removes))
 		case InvalidUnknownAction:
 			d = asm.Delta(nextUpdate, []interface{}{map[string]interface{}{"action": "no-such-action", "x": 1}})
+		case InvalidSecondPatch:
+			ps := markerPatches(markers, removes)
+			ps = append(ps, map[string]interface{}{"action": "ietf-json-patch", "patches": []interface{}{
+				map[string]interface{}{"op": "remove", "path": "/service"}}})
+			d = asm.Delta(nextUpdate, ps)
 		default:
 			d = asm.Delta(nextUpdate, []interface{}{})
 		}
